@@ -80,7 +80,11 @@ fn exec_io(sc: &Scenario) -> Report {
         let sc = sc2;
         let mut r = Report::default();
         let (pb, _term) = mk_pb(&sc);
-        let mk = || SimIo::new(sc.seed ^ 0xABCD, sc.c("data_len") as usize, sc.c("p_err"), sc.c("p_short"), 0);
+        let mk = || {
+            let mut io = SimIo::new(sc.seed ^ 0xABCD, sc.c("data_len") as usize, sc.c("p_err"), sc.c("p_short"), 0);
+            io.vectored = sc.c("scalar_sink") != 1;
+            io
+        };
         let inner = mk();
         let mirror = inner.mirror.clone();
         let mut w: ProgressBarIter<SimIo> = if sc.c("ctor") == 1 { pb.wrap_write(inner) } else { pb.wrap_read(inner) };
@@ -193,9 +197,11 @@ fn exec_io(sc: &Scenario) -> Report {
                         }
                     }
                     "write_vectored" => {
-                        let a: Vec<u8> = vec![1u8; op.n0() as usize];
+                        // (one call in three starts with an empty slice)
+                        let a: Vec<u8> = vec![1u8; if op.n1() % 3 == 0 { 0 } else { op.n0() as usize }];
                         let b: Vec<u8> = vec![2u8; op.n1() as usize];
-                        let s = [IoSlice::new(&a), IoSlice::new(&b)];
+                        let c: Vec<u8> = vec![6u8; (op.n0() / 2) as usize];
+                        let s = [IoSlice::new(&a), IoSlice::new(&b), IoSlice::new(&c)];
                         let (r1, r2) = (w.write_vectored(&s), t.write_vectored(&s));
                         if kind_of(&r1) != kind_of(&r2) || r1.as_ref().ok() != r2.as_ref().ok() {
                             return Err(format!("write_vectored: wrapped {r1:?} vs twin {r2:?}"));
@@ -381,7 +387,11 @@ fn exec_aio(sc: &Scenario) -> Report {
         let sc = sc2;
         let mut r = Report::default();
         let (pb, _term) = mk_pb(&sc);
-        let mk = || SimIo::new(sc.seed ^ 0xA510, sc.c("data_len") as usize, sc.c("p_err"), sc.c("p_short"), sc.c("p_pending"));
+        let mk = || {
+            let mut io = SimIo::new(sc.seed ^ 0xA510, sc.c("data_len") as usize, sc.c("p_err"), sc.c("p_short"), sc.c("p_pending"));
+            io.vectored = sc.c("scalar_sink") != 1;
+            io
+        };
         let inner = mk();
         let mirror = inner.mirror.clone();
         let mut w: ProgressBarIter<SimIo> = if sc.c("ctor") == 1 { pb.wrap_async_write(inner) } else { pb.wrap_async_read(inner) };
@@ -453,9 +463,11 @@ fn exec_aio(sc: &Scenario) -> Report {
                         }
                     }
                     "poll_write_vectored" => {
-                        let a: Vec<u8> = vec![3u8; op.n0() as usize];
+                        // (one call in three starts with an empty slice)
+                        let a: Vec<u8> = vec![3u8; if op.n1() % 3 == 0 { 0 } else { op.n0() as usize }];
                         let b: Vec<u8> = vec![4u8; op.n1() as usize];
-                        let bufs = [IoSlice::new(&a), IoSlice::new(&b)];
+                        let c: Vec<u8> = vec![5u8; (op.n0() / 2) as usize];
+                        let bufs = [IoSlice::new(&a), IoSlice::new(&b), IoSlice::new(&c)];
                         let (v1, v2) = (tokio::io::AsyncWrite::is_write_vectored(&w), tokio::io::AsyncWrite::is_write_vectored(&t));
                         if v1 != v2 {
                             return Err(format!("is_write_vectored: wrapped {v1} vs twin {v2}"));
@@ -1278,7 +1290,7 @@ impl Check for C17 {
         "C17"
     }
     fn rule_text(&self) -> String {
-        "modes io (Read/read_vectored/read_exact/read_to_string/read_to_end/BufRead fill_buf+consume/Write/write_vectored/flush/Seek/stream_position, and the provided methods write_all/read_until/bytes()/io::copy/rewind/seek_relative; wrapper built by wrap_read or wrap_write), aio (tokio poll_read/poll_fill_buf/consume/poll_write/poll_write_vectored + is_write_vectored/poll_flush/poll_shutdown/AsyncSeek, hand polled), stream (poll_next, size_hint), iter (next/next_back/len/size_hint and the provided methods nth/nth_back/take().count()/rev()/last/fold/find; built by progress_with or wrap_iter; exhaustion and cancellation), rayon (drive, with_producer, drive_unindexed through a seeded split driver, leaves on simulated threads). 1..40 PRNG calls per run against a simulated source/sink whose every call draws full/short/EINTR/EAGAIN/EIO/Pending/EOF from its own PRNG; the unwrapped twin gets the same plan and call sequence; results, buffers, error kinds and Poll states must be equal call by call and position() must equal the bytes/items actually transferred (seek: new offset; read_exact/read_to_string errors: anywhere up to the bytes the source delivered). Non-trivial: io/aio = >= 2 calls and at least one injected short transfer/error/Pending/EOF; iter/stream = >= 2 calls; rayon = at least one split. Distinct = distinct scenario hash.".into()
+        "modes io (Read/read_vectored/read_exact/read_to_string/read_to_end/BufRead fill_buf+consume/Write/write_vectored/flush/Seek/stream_position, and the provided methods write_all/read_until/bytes()/io::copy/rewind/seek_relative; wrapper built by wrap_read or wrap_write), aio (tokio poll_read/poll_fill_buf/consume/poll_write/poll_write_vectored (three slices, the first one empty in a third of the calls; one sink in three only implements the scalar write and says so) + is_write_vectored/poll_flush/poll_shutdown/AsyncSeek, hand polled), stream (poll_next, size_hint), iter (next/next_back/len/size_hint and the provided methods nth/nth_back/take().count()/rev()/last/fold/find; built by progress_with or wrap_iter; exhaustion and cancellation), rayon (drive, with_producer, drive_unindexed through a seeded split driver, leaves on simulated threads). 1..40 PRNG calls per run against a simulated source/sink whose every call draws full/short/EINTR/EAGAIN/EIO/Pending/EOF from its own PRNG; the unwrapped twin gets the same plan and call sequence; results, buffers, error kinds and Poll states must be equal call by call and position() must equal the bytes/items actually transferred (seek: new offset; read_exact/read_to_string errors: anywhere up to the bytes the source delivered). Non-trivial: io/aio = >= 2 calls and at least one injected short transfer/error/Pending/EOF; iter/stream = >= 2 calls; rayon = at least one split. Distinct = distinct scenario hash.".into()
     }
     fn assumptions(&self) -> Vec<String> {
         vec![
@@ -1343,6 +1355,7 @@ impl Check for C17 {
                 sc.set("len0", sc.c("data_len"));
                 sc.set("p_err", *rng.pick(&[0, 50, 150, 400]));
                 sc.set("p_short", *rng.pick(&[0, 200, 600]));
+                sc.set("scalar_sink", rng.chance(1, 3) as u64);
                 let mut ops = vec![];
                 for _ in 0..n {
                     let cap = *rng.pick(&[0u64, 1, 2, 3, 8, 17, 64]);
@@ -1375,6 +1388,7 @@ impl Check for C17 {
                 sc.set("len0", sc.c("data_len"));
                 sc.set("p_err", *rng.pick(&[0, 50, 200]));
                 sc.set("p_short", *rng.pick(&[0, 300, 700]));
+                sc.set("scalar_sink", rng.chance(1, 3) as u64);
                 sc.set("p_pending", *rng.pick(&[0, 200, 500]));
                 let mut ops = vec![];
                 for _ in 0..n {
@@ -1430,7 +1444,8 @@ impl Check for C17 {
             _ => {
                 let items = rng.range(0, if tier == Tier::Quick { 12 } else { 24 });
                 sc.set("n_items", items);
-                sc.set("len0", *rng.pick(&[items, items, items + 3]));
+                // (the declared length may be wrong either way: the position counts the items)
+                sc.set("len0", *rng.pick(&[items, items, items + 3, items / 2, 1, 0]));
                 sc.set("path", rng.below(3));
                 sc.set("max_depth", rng.range(0, 3));
                 sc.set("leaf_iter_mode", rng.below(3));
